@@ -5,6 +5,11 @@
     requires box_wf(*old(self)), vt_wf(*variable_type),
     ensures box_wf(*final(self)), final(self).tolerance == old(self).tolerance,
         forall|env: Env| #[trigger] box_ok(*old(self), env) && in_domain(*variable_type, env[name@]) ==> box_ok(*final(self), env),
+        // "forgets the inferred range and falls back to the declared one": afterwards the variable's range admits every value of the given type,
+        // so the lowering cannot rely on anything narrower (the point of repair 0f3a8ac); the other variables keep their ranges
+        final(self).variable_bounds.has(name@),
+        forall|x: real| in_domain(*variable_type, x) ==> #[trigger] contains(final(self).variable_bounds.map()[name@], x),
+        forall|k: Seq<char>| k != name@ ==> (#[trigger] final(self).variable_bounds.has(k) == old(self).variable_bounds.has(k)) && (old(self).variable_bounds.has(k) ==> final(self).variable_bounds.map()[k] == old(self).variable_bounds.map()[k]),
 @fn BoundsAnalyzer::reset_to_declared @end
     proof {
         assert(box_wf(*self)) by {
